@@ -47,6 +47,10 @@ def run(ctx):
         from props.common import ret_ok_none
         _, e1 = ctx.success_edges_of(lf, c14.STORE)
         sites = ctx.call_sites(body, c14.STORE + c14.UPD)
+        if not sites:
+            # the persistence steps live in a helper under create_certificate: its call sites stand for them
+            hs = [h.name for h in ctx.closure_fns(f, depth=3) if h is not getattr(f, '_orig', f).root() and ctx.closure_sites(h, c14.STORE + c14.UPD, depth=2)]
+            sites = ctx.call_sites(body, hs) if hs else []
         # Ok(None) return unreachable from any persistence call
         bad = []
         for c in sites:
@@ -126,6 +130,40 @@ def run(ctx):
                 oka = True
             if has(og, 'call:' + RT + 'create_certificate') and built == {'KeepState'}:
                 okc = True
+        # the same mappings written in the body instead of in closures (`if let Err(e) = .. { return Err(ReInit { .. e .. }) }`,
+        # `let Some(cert) = .. else { return Err(RuntimeError::keep_state(..)) }`)
+        def _builders(variant):
+            out_ = []
+            for bi_, b_ in enumerate(body.blocks):
+                if b_.cleanup:
+                    continue
+                for (_l, pl_, rv_) in b_.stmts:
+                    if rv_[0] == 'agg' and rv_[2] and rv_[2].endswith('::RuntimeError') and rv_[4] == variant:
+                        out_.append((bi_, rv_))
+                if b_.term[0] == 'call':
+                    c_ = b_.term[1]
+                    for n_ in c_.names():
+                        for k_ in ws.by_name.get(n_, []):
+                            if k_.name.rsplit('::', 2)[-2:-1] == ['RuntimeError'] and any(a_.endswith('::RuntimeError') and True for (a_, v_) in k_.aggs):
+                                vs_ = {rv2[4] for bb2 in k_.body.blocks for (_x, _p, rv2) in bb2.stmts if rv2[0] == 'agg' and rv2[2] and rv2[2].endswith('::RuntimeError')}
+                                if vs_ == {variant}:
+                                    out_.append((bi_, c_))
+            return out_
+        if not oka:
+            for bi_, rv_ in _builders('ReInit'):
+                ops = rv_[5] if isinstance(rv_, tuple) else rv_.args
+                if any(has(fn_origins(lt, o_, True), 'call:' + RT + 'create_artifact') for o_ in ops if o_[0] in ('copy', 'move')):
+                    oka = True
+        if not okc:
+            none_edges = set()
+            for l_, (ty_, nm_) in enumerate(body.locals):
+                if ty_.startswith('std::option::Option<') and 'Certificate' in ty_ and has(fn_origins(lt, ('copy', (l_, ())), True), 'call:' + RT + 'create_certificate'):
+                    none_edges |= track_result(body, l_, -1, 'option').success_edges
+            if none_edges:
+                r_wo = body.reach([0], removed=none_edges)
+                ks = _builders('KeepState')
+                if ks and all(bi_ not in r_wo for bi_, _ in ks):
+                    okc = True
         if oka:
             R.ok('c', 'R1', 'Signing->Ready: an artifact failure is mapped to RuntimeError::ReInit', '', tr_.loc())
         else:
